@@ -1,48 +1,101 @@
 """C18 -- ffi.unpack equals element-wise reading.
 
 Differential: ffi.unpack(p, n) against [p[i] for i in range(n)] (joined for
-character types) on random memory, every misalignment 0..7, n up to the end of
-a malloc'ed block (so ASan decides over-reads).
+character types) on random and boundary memory contents, misalignment 0..15,
+n up to the end of the allocation (so ASan decides over-reads), over pointer
+and array cdata obtained in every way cffi offers (cast, cast to array window,
+owning ffi.new arrays / pointers, pointer arithmetic, from_buffer arrays /
+pointers, array fields of packed and natural structs, addressof), with
+n < len(array) as well as n == len(array), through every unpack entry point.
 """
 import sys, os, struct
 from vlib import gen, core
 
 MEMCHECK_SAMPLE = 6
-RULE = ("case = (item type, random memory contents, misalignment 0..7, n); item types: every "
-        "integer type (all unpack fast paths), _Bool (bytes >= 2 included), char, wchar_t, "
-        "char16_t, char32_t, float, double, long double, complex, pointers, enums, structs, "
-        "arrays; the last element ends exactly at the end of the allocation; distinct = "
-        "(type, contents, misalignment, n); non-trivial = n >= 2")
+RULE = ("case = (item type, memory contents (random bytes mixed with boundary patterns), creation "
+        "mode of the pointer/array cdata, misalignment 0..15, n); item types: every integer type "
+        "(all unpack fast paths), _Bool (bytes >= 2 included), char, wchar_t, char16_t, char32_t, "
+        "float, double, long double, complex, pointers (data, function, pointer-to-pointer), "
+        "enums (32 and 64 bit), structs (incl. nested), unions, arrays, zero-size items; creation "
+        "modes: cast pointer, cast array window, owning new T[] / T[L] / T*, pointer arithmetic, "
+        "from_buffer T[] / T[L] / T*, array field of packed / natural struct, addressof; arrays are "
+        "unpacked with n == len and n < len; the last element of pointer cases ends exactly at the "
+        "end of the allocation; exceptions are compared by type and message; a quarter of the "
+        "cases repeat the unpack through another entry point (keywords, backend function, "
+        "C-level FFI object, index-like length); distinct = (type, contents, mode, misalignment, "
+        "n); non-trivial = n >= 2")
 ASSUMPTIONS = ["cdata elements (structs, pointers, arrays, long double) are compared by type and "
-               "address / value bytes"]
+               "address / value bytes",
+               "an array cdata is only unpacked with n <= len(array): element-wise reading is "
+               "bounds-checked there, unpack is documented not to be",
+               "void / opaque item types and NULL pointers are outside the class (no element can "
+               "be read)"]
 
 ITEM_TYPES = [t[0] for t in gen.INT_TYPES[:18]] + \
-    ['_Bool', 'char', 'wchar_t', 'char16_t', 'char32_t', 'float', 'double', 'long double',
+    ['size_t', 'ptrdiff_t',
+     '_Bool', 'char', 'wchar_t', 'char16_t', 'char32_t', 'float', 'double', 'long double',
      'float _Complex', 'double _Complex', 'void *', 'int *', 'int(*)(int)', 'enum e8', 'enum eu',
-     'struct s3', 'struct s8', 'int[3]', 'char[5]', 'short[2][2]']
+     'struct s3', 'struct s8', 'int[3]', 'char[5]', 'short[2][2]',
+     'enum el', 'union u6', 'struct nest', 'int **', 'struct s3 *', 'char *', 'mybool',
+     'int[0]', 'char[2][0]']
 CDEF = """
 enum e8 { E8A = -1, E8B = 1 }; enum eu { EUA = 0, EUB = 4000000000 };
+enum el { ELA = -1, ELB = 0x100000000 };
 struct s3 { char a, b, c; }; struct s8 { int x; float y; };
+union u6 { int a; char b[6]; };
+struct nest { struct { char c; short s; } in[2]; char t; };
+typedef _Bool mybool;
 """
+BOOL_TYPES = ('_Bool', 'mybool')
+WIDE_TYPES = ('wchar_t', 'char16_t', 'char32_t')
+FIELDS = [('pk', 'a', 9), ('pk', 'b', 5), ('np', 'a', 9)]
+MODES = ['cast'] * 7 + ['castarr'] * 4 + ['new_arr'] * 3 + ['new_ptr'] + ['frombuf_arr'] * 2 + \
+    ['frombuf_ptr'] + ['field'] * 3
+ENTRIES = ['kw', 'backend', 'cffi1', 'index']
+
+
+class _Index(object):
+    def __init__(self, n):
+        self.n = n
+
+    def __index__(self):
+        return self.n
 
 
 def generate(ctx):
     rng = ctx.rng('gen')
-    per = ctx.scale(500, 12000)
+    per = ctx.scale(380, 8000)
+    lens = [0, 1, 2, 3, 5, 9, 17, 40]
     cases = []
     for T in ITEM_TYPES:
         items = []
         for _ in range(per):
-            items.append([rng.getrandbits(40), rng.randrange(8), rng.choice([0, 1, 2, 3, 5, 9, 17, 40])])
+            mis = rng.randrange(8) if rng.random() < 0.8 else rng.randrange(8, 16)
+            n = rng.choice(lens)
+            if rng.random() < 0.01:
+                n = rng.choice([64, 257])
+            items.append([rng.getrandbits(40), mis, n, rng.choice(MODES)])
         cases.append({'T': T, 'items': items})
     return None, cases
 
 
 def child_setup(setup, wd):
     from cffi import FFI
+    import _cffi_backend
     ffi = FFI()
     ffi.cdef(CDEF)
-    return {'ffi': ffi}
+    # array fields: one packed and one naturally aligned struct per item type
+    src_t, src_p, src_n = '', '', ''
+    fidx = {}
+    for i, T in enumerate(ITEM_TYPES):
+        fidx[T] = i
+        src_t += 'typedef %s;\n' % ffi.getctype(T, 'item%d' % i)
+        src_p += 'struct pk%d { char c; item%d a[9]; char d; item%d b[5]; };\n' % (i, i, i)
+        src_n += 'struct np%d { char c; item%d a[9]; };\n' % (i, i)
+    ffi.cdef(src_t)
+    ffi.cdef(src_p, packed=True)
+    ffi.cdef(src_n)
+    return {'ffi': ffi, 'fidx': fidx, 'cffi1': _cffi_backend.FFI()}
 
 
 def norm(ffi, x):
@@ -64,6 +117,176 @@ def norm(ffi, x):
     return (type(x).__name__, x)
 
 
+_F4 = [struct.pack('<f', v) for v in (float('inf'), float('-inf'), float('nan'), -0.0, 1e-45, 1.5)] + \
+    [b'\x01\x00\x80\x7f', b'\x00\x00\x80\x00']
+_F8 = [struct.pack('<d', v) for v in (float('inf'), float('-inf'), float('nan'), -0.0, 5e-324, 1.5)] + \
+    [b'\x01\x00\x00\x00\x00\x00\xf0\x7f'] + \
+    [struct.pack('<Q', v) for v in (2 ** 31, 2 ** 31 - 1, 2 ** 32 - 1, 2 ** 32, 2 ** 63 - 2 ** 31,
+                                    2 ** 64 - 2 ** 31, 2 ** 64 - 2 ** 31 - 1)]
+
+
+def special(rnd, size):
+    """one element of boundary content: all-zero, all-ones, MIN, MAX, small magnitudes, float
+    infinities / NaN / signed zero / denormals, 32-bit boundaries inside 64-bit items"""
+    k = rnd.randrange(8)
+    if k == 0:
+        return bytes(size)
+    if k == 1:
+        return b'\xff' * size
+    if k == 2:
+        return bytes(size - 1) + b'\x80'
+    if k == 3:
+        return b'\xff' * (size - 1) + b'\x7f'
+    if k == 4:
+        return bytes([rnd.choice([1, 2, 127, 128, 255])]) + bytes(size - 1)
+    if k == 5:
+        return bytes([rnd.choice([0xfe, 0x80, 0x7f])]) + b'\xff' * (size - 1)
+    if size == 4:
+        return rnd.choice(_F4)
+    if size == 8:
+        return rnd.choice(_F8)
+    if size == 16:
+        return rnd.choice(_F8) + rnd.choice(_F8)
+    return rnd.getrandbits(8 * size).to_bytes(size, 'little')
+
+
+def gen_elems(rnd, T, size, count):
+    """memory contents of `count` consecutive items"""
+    if size == 0 or count == 0:
+        return b''
+    if T in BOOL_TYPES:
+        return bytes(rnd.choice([0, 1, 0, 1, 0, 1, 2, 255, 128, rnd.randrange(256)])
+                     for _ in range(count))
+    if T in WIDE_TYPES:
+        units = []
+        for _ in range(count):
+            r = rnd.random()
+            if r < 0.55:
+                u = rnd.choice([rnd.randrange(1, 128), rnd.randrange(0x80, 0xD800),
+                                rnd.randrange(0xE000, 0x10000), 0])
+            elif r < 0.75:
+                u = rnd.choice([0xD800, 0xDBFF, 0xDC00, 0xDFFF, rnd.randrange(0xD800, 0xE000)])
+            elif r < 0.9:
+                u = rnd.randrange(0x10000, 0x110000)
+            else:
+                u = rnd.choice([0x110000, 0x7fffffff, 0x80000000, 0xffffffff,
+                                rnd.getrandbits(32)])
+            units.append(u & (0xffff if size == 2 else 0xffffffff))
+        if size == 2 and count >= 2 and rnd.random() < 0.3:
+            k = rnd.randrange(count - 1)
+            units[k], units[k + 1] = 0xD800 + rnd.randrange(0x400), 0xDC00 + rnd.randrange(0x400)
+        return struct.pack('<%d%s' % (count, 'H' if size == 2 else 'I'), *units)
+    p_special = rnd.choice([0.0, 0.1, 0.5])
+    out = []
+    for _ in range(count):
+        if rnd.random() < p_special:
+            out.append(special(rnd, size))
+        else:
+            out.append(rnd.getrandbits(8 * size).to_bytes(size, 'little'))
+    return b''.join(out)
+
+
+def outcome(ffi, f):
+    try:
+        u = f()
+    except Exception as e:
+        return ('exc', type(e).__name__, str(e))
+    if isinstance(u, list):
+        return ('ok', [norm(ffi, x) for x in u])
+    return ('ok', u)
+
+
+def build(st, rep, rnd, T, tp, size, mis, n, mode):
+    """-> (cdata under test, n, bytes of the n items, keepalive, is_array, array length)"""
+    ffi = st['ffi']
+    if mode == 'cast':
+        # pointer into a char[] block; the last item ends at the end of the block
+        elems = gen_elems(rnd, T, size, n)
+        data = rnd.getrandbits(8 * mis).to_bytes(mis, 'little') + elems
+        raw = ffi.new('char[]', max(len(data), 1))
+        ffi.buffer(raw)[0:len(data)] = data
+        p = ffi.cast(ffi.getctype(tp, '*'), ffi.cast('char *', raw) + mis)
+        return p, n, elems, raw, None
+    if mode == 'castarr':
+        # array window T[L] over a char[] block, L >= n, any misalignment
+        L = n + rnd.choice([0, 0, 1, 3])
+        elems = gen_elems(rnd, T, size, L)
+        data = rnd.getrandbits(8 * mis).to_bytes(mis, 'little') + elems
+        raw = ffi.new('char[]', max(len(data), 1))
+        ffi.buffer(raw)[0:len(data)] = data
+        a = ffi.cast(ffi.getctype(tp, '(*)[%d]' % L), ffi.cast('char *', raw) + mis)[0]
+        return a, n, elems[:n * size], raw, L
+    if mode == 'new_arr':
+        # owning array (both spellings); or a pointer into it by pointer arithmetic
+        L = n + rnd.choice([0, 0, 1, 3])
+        elems = gen_elems(rnd, T, size, L)
+        if rnd.random() < 0.5:
+            a = ffi.new(ffi.getctype(tp, '[]'), L)
+            rep.stat('new_open_array')
+        else:
+            a = ffi.new(ffi.getctype(tp, '[%d]' % L))
+            rep.stat('new_fixed_array')
+        ffi.buffer(a)[0:len(elems)] = elems
+        if rnd.random() < 0.3:
+            k = rnd.randrange(L + 1)
+            n = min(n, L - k)
+            rep.stat('pointer_arithmetic')
+            return a + k, n, elems[k * size:(k + n) * size], a, None
+        return a, n, elems[:n * size], a, L
+    if mode == 'new_ptr':
+        # owning pointer to a single item
+        n = min(n, 1)
+        elems = gen_elems(rnd, T, size, 1)
+        q = ffi.new(ffi.getctype(tp, '*'))
+        ffi.buffer(q)[0:len(elems)] = elems
+        return q, n, elems[:n * size], q, None
+    if mode in ('frombuf_arr', 'frombuf_ptr'):
+        arr = mode == 'frombuf_arr'
+        L = n + (rnd.choice([0, 0, 1, 3]) if arr else 0)
+        elems = gen_elems(rnd, T, size, L)
+        ba = bytearray(rnd.getrandbits(8 * mis).to_bytes(mis, 'little') + elems)
+        mv = memoryview(ba)[mis:]
+        if not arr:
+            c = ffi.from_buffer(ffi.getctype(tp, '*'), mv)
+            return c, n, elems, (ba, mv), None
+        if size and rnd.random() < 0.5:
+            c = ffi.from_buffer(ffi.getctype(tp, '[]'), mv)
+            rep.stat('frombuf_open_array')
+        else:
+            c = ffi.from_buffer(ffi.getctype(tp, '[%d]' % L), mv)
+            rep.stat('frombuf_fixed_array')
+        return c, n, elems[:n * size], (ba, mv), L
+    if mode == 'field':
+        # array field of an owning struct: packed (misaligned) or natural layout
+        kind, fld, L = rnd.choice(FIELDS)
+        if n > L:
+            n = rnd.randrange(L + 1)
+        sname = 'struct %s%d' % (kind, st['fidx'][T])
+        s = ffi.new(sname + ' *')
+        total = ffi.sizeof(sname)
+        ffi.buffer(s)[0:total] = rnd.getrandbits(8 * total).to_bytes(total, 'little')
+        elems = gen_elems(rnd, T, size, L)
+        off = ffi.offsetof(sname, fld)
+        ffi.buffer(s)[off:off + len(elems)] = elems
+        rep.stat('field_' + kind)
+        form = rnd.choice(['arr', 'arr', 'arr', 'add', 'addressof', 'addressof_arr'])
+        if form == 'arr':
+            return getattr(s, fld), n, elems[:n * size], s, L
+        if form == 'addressof_arr':
+            rep.stat('addressof_array_field')
+            return ffi.addressof(s, fld)[0], n, elems[:n * size], s, L
+        k = rnd.randrange(L + 1)
+        n = min(n, L - k)
+        if form == 'addressof' and size and k < L:
+            rep.stat('addressof_item')
+            p = ffi.addressof(s, fld, k)
+        else:
+            rep.stat('pointer_arithmetic')
+            p = getattr(s, fld) + k
+        return p, n, elems[k * size:(k + n) * size], s, None
+    raise ValueError(mode)
+
+
 def child_case(st, case):
     import random
     ffi = st['ffi']
@@ -72,40 +295,16 @@ def child_case(st, case):
     size = ffi.sizeof(T)
     tp = ffi.typeof(T)
     is_char = T == 'char'
-    is_wide = T in ('wchar_t', 'char16_t', 'char32_t')
-    ptype = ffi.typeof(ffi.getctype(tp, '*'))
-    for seed, mis, n in case['items']:
+    is_wide = T in WIDE_TYPES
+    if size == 0:
+        rep.stat('zero_size_item_types')
+    for item in case['items']:
+        seed, mis, n = item[:3]
+        mode = item[3] if len(item) > 3 else 'cast'
         rnd = random.Random(seed)
-        nbytes = mis + n * size
-        raw = ffi.new('char[]', max(nbytes, 1))
-        if T == '_Bool':
-            data = bytes(rnd.choice([0, 1, 0, 1, 0, 1, 2, 255, rnd.randrange(256)])
-                         for _ in range(nbytes))
-        elif is_wide:
-            units = []
-            for _ in range(n):
-                r = rnd.random()
-                if r < 0.55:
-                    u = rnd.choice([rnd.randrange(1, 128), rnd.randrange(0x80, 0xD800),
-                                    rnd.randrange(0xE000, 0x10000), 0])
-                elif r < 0.75:
-                    u = rnd.choice([0xD800, 0xDBFF, 0xDC00, 0xDFFF, rnd.randrange(0xD800, 0xE000)])
-                elif r < 0.9:
-                    u = rnd.randrange(0x10000, 0x110000)
-                else:
-                    u = rnd.choice([0x110000, 0x7fffffff, 0x80000000, 0xffffffff,
-                                    rnd.getrandbits(32)])
-                units.append(u & (0xffff if size == 2 else 0xffffffff))
-            if size == 2 and n >= 2 and rnd.random() < 0.3:
-                k = rnd.randrange(n - 1)
-                units[k], units[k + 1] = 0xD800 + rnd.randrange(0x400), 0xDC00 + rnd.randrange(0x400)
-            data = bytes(rnd.getrandbits(8) for _ in range(mis)) + \
-                struct.pack('<%d%s' % (n, 'H' if size == 2 else 'I'), *units)
-        else:
-            data = bytes(rnd.getrandbits(8) for _ in range(nbytes))
-        ffi.buffer(raw)[0:nbytes] = data
-        p = ffi.cast(ptype, ffi.cast('char *', raw) + mis)
-        detail = [seed, mis, n]
+        p, n, ebytes, keep, alen = build(st, rep, rnd, T, tp, size, mis, n, mode)
+        detail = [seed, mis, item[2], mode]
+        addr = int(ffi.cast('uintptr_t', p))
         # element-wise
         try:
             elems = [p[i] for i in range(n)]
@@ -116,45 +315,59 @@ def child_case(st, case):
             else:
                 ref = ('ok', [norm(ffi, x) for x in elems])
         except Exception as e:
-            ref = ('exc', type(e).__name__)
-        try:
-            u = ffi.unpack(p, n)
-            if isinstance(u, list):
-                got = ('ok', [norm(ffi, x) for x in u])
-            else:
-                got = ('ok', u)
-        except Exception as e:
-            got = ('exc', type(e).__name__)
-        rep.case((T, data, mis, n), nontrivial=n >= 2,
-                 sample={'T': T, 'mis': mis, 'n': n, 'mem': data[:24].hex()})
-        rep.stat('mis%d' % mis)
+            ref = ('exc', type(e).__name__, str(e))
+        got = outcome(ffi, lambda: ffi.unpack(p, n))
+        rep.case((T, ebytes, mode, addr & 15, n, alen), nontrivial=n >= 2,
+                 sample={'T': T, 'mode': mode, 'mis': addr & 15, 'n': n, 'array_len': alen,
+                         'mem': ebytes[:24].hex()})
+        rep.stat('mis%d' % (addr & 15))
+        rep.stat('mode_' + mode)
+        if n >= 64:
+            rep.stat('n_ge_64')
+        if alen is not None:
+            rep.stat('array_unpacks')
+            rep.stat('array_n_lt_len' if n < alen else 'array_n_eq_len')
+            if addr & 7:
+                rep.stat('array_misaligned')
         if ref[0] == 'exc':
             rep.stat('elementwise_raises')
+        what = '%s %s%s' % (T, mode, '' if alen is None else ' (array of %d)' % alen)
         if got != ref:
             mech = 'unpack-differs'
-            if is_wide and size == 4:
-                us = struct.unpack('<%dI' % n, data[mis:])
+            if alen is not None:
+                mech = 'unpack-array-differs'
+            if got[0] == 'exc' and ref[0] == 'exc' and got[1] == ref[1]:
+                mech = 'unpack-exception-message-differs'
+            # classifier keys of the two historical findings (unpack returned a string)
+            if is_wide and size == 4 and got[0] == 'ok':
+                us = struct.unpack('<%dI' % n, ebytes)
                 if any(x > 0x10FFFF for x in us):
                     mech = 'char32-beyond-unicode'
-            if is_wide and size == 2:
-                us = struct.unpack('<%dH' % n, data[mis:])
+            if is_wide and size == 2 and got[0] == 'ok' and ref[0] == 'ok':
+                us = struct.unpack('<%dH' % n, ebytes)
                 if any(0xD800 <= us[i] <= 0xDBFF and 0xDC00 <= us[i + 1] <= 0xDFFF
                        for i in range(n - 1)):
                     mech = 'char16-surrogate-pair-joined'
             rep.bad(mech, '%s at misalignment %d, n=%d, memory %s: unpack -> %r, element-wise -> %r'
-                    % (T, mis, n, data[mis:mis + 40].hex(), str(got)[:200], str(ref)[:200]), detail)
-        # arrays: unpack of an array cdata too
-        if n and not is_wide and mis == 0 and T not in ('_Bool',) and rnd.random() < 0.3:
-            arr = ffi.cast(ffi.getctype(tp, '(*)[%d]' % n), raw)[0]
-            try:
-                u2 = ffi.unpack(arr, n)
-                g2 = ('ok', [norm(ffi, x) for x in u2]) if isinstance(u2, list) else ('ok', u2)
-            except Exception as e:
-                g2 = ('exc', type(e).__name__)
-            rep.stat('array_unpacks')
-            if g2 != ref:
-                rep.bad('unpack-array-differs', '%s[%d]: unpack(array) %r vs element-wise %r' %
-                        (T, n, str(g2)[:200], str(ref)[:200]), detail)
+                    % (what, addr & 15, n, ebytes[:40].hex(), str(got)[:200], str(ref)[:200]), detail)
+        elif rnd.random() < 0.25:
+            # the same unpack through the other entry points
+            entry = rnd.choice(ENTRIES)
+            if entry == 'kw':
+                g2 = outcome(ffi, lambda: ffi.unpack(cdata=p, length=n))
+            elif entry == 'backend':
+                g2 = outcome(ffi, lambda: ffi._backend.unpack(p, n))
+            elif entry == 'cffi1':
+                g2 = outcome(ffi, lambda: st['cffi1'].unpack(p, length=n))
+            else:
+                g2 = outcome(ffi, lambda: ffi.unpack(p, _Index(n)))
+            rep.stat('entry_' + entry)
+            if g2 != got:
+                rep.bad('unpack-entry-differs:' + entry,
+                        '%s at misalignment %d, n=%d, memory %s: entry point %s -> %r, '
+                        'ffi.unpack(p, n) -> %r' % (what, addr & 15, n, ebytes[:40].hex(), entry,
+                                                    str(g2)[:200], str(got)[:200]), detail)
+        del p, keep
     return rep.result()
 
 
